@@ -365,8 +365,9 @@ def saslprep(source, param="value"):
     if any(stringprep.in_table_a1(c) for c in data):
         raise ValueError("unassigned code points forbidden in " + param)
 
-    # normalize to KC form
-    data = unicodedata.normalize("NFKC", data)
+    # normalize to KC form -- of unicode 3.2, which stringprep is defined over
+    # (later corrigenda re-mapped a few CJK compatibility ideographs)
+    data = unicodedata.ucd_3_2_0.normalize("NFKC", data)
     if not data:
         return _UEMPTY
 
